@@ -98,14 +98,6 @@ Theorem html_rawtext_never_markup :
 Proof. exact html_rawtext_proof. Qed.
 Print Assumptions html_rawtext_never_markup.
 
-(* C09 refuted (found while modelling) — "svg subtrees come back as one SVG token": a double quote in character
-   data makes the token swallow "</svg>" and everything after it. *)
-Theorem html_svg_quote_refuted :
-  let d := [60;115;118;103;62;60;116;101;120;116;62;53;34;32;112;105;112;101;60;47;116;101;120;116;62;60;47;115;118;103;62;60;112;62] in
-  exists l', next no_tmpl (new_lexer d) = Ok (SvgT, Some (mkSl 0 (len d)), l') /\ len d = 34.
-Proof. exact html_svg_quote_refuted_proof. Qed.
-Print Assumptions html_svg_quote_refuted.
-
 (* C09 — templates, text: a delimited region [p,q) that starts where the lexer is in text is returned as exactly
    one Template token, HasTemplate() = true (is_region: q is the end of the first closing delimiter outside quoted
    strings, or the end of input). *)
@@ -177,14 +169,17 @@ Print Assumptions html_template_rawtext_converse.
    end tags with any HTML whitespace before '>'; the raw-text elements style, title, textarea, xmp, iframe, script in any ASCII case with
    attributes, non-empty content that contains no "</" (script: also no "<!--"), and their end tag; plaintext with
    everything after its tag (last item); bogus comments "<?…>", "<!…>" (not starting with "--", "[CDATA[", 'd', 'D')
-   and "</" + non-letter "…>"; svg / math / xml subtrees whose inside contains no double
-   quote, no NUL and no "</") the lexer, without template delimiters, returns exactly one token per construct
+   and "</" + non-letter "…>"; svg / math / xml subtrees whose inside is accepted by Wf.xml_wf: read as tags and
+   character data, quotes count only inside tags (attribute values may contain '>', "</svg>" and the other quote),
+   character data may contain quotes, nested tags and end tags of other elements, comments / processing
+   instructions / CDATA (their content is character data), no NUL, and no end tag of the element itself in
+   character data) the lexer, without template delimiters, returns exactly one token per construct
    (one per tag part; raw content as ONE Text token; an svg/math subtree as ONE SVG/Math token), with the right
    type, the bytes of the construct, lower-cased Text()/AttrKey() and verbatim AttrVal(), followed by the
    end-of-input report.  [observe] reads type, token bytes, Text() and (for attributes) AttrVal() after each call.
    NOT covered by this theorem (correspondence + Go oracle only): script content containing "<!--" (double escape), raw
-   content that is empty or contains "</" (html_rawtext_never_markup says where such content ends), svg/math with double quotes or nested
-   end tags inside, "<!d…>" bogus comments, unterminated constructs, text containing a '<' that opens nothing, names containing '/', templates. *)
+   content that is empty or contains "</" (html_rawtext_never_markup says where such content ends), svg/math whose
+   comments / CDATA contain "</svg", "<!d…>" bogus comments, unterminated constructs, text containing a '<' that opens nothing, names containing '/', templates. *)
 Theorem html_wellformed_tokens_partial :
   forall items, wf_doc items ->
     exists tr, run no_tmpl (length (doc_obs items) + 1) (new_lexer (doc_bytes items)) = Ok tr /\
